@@ -16,7 +16,7 @@ CONSTANTS
   StepKinds = {"m1", "0", "1", "sz-1", "sz", "sz+1", "p62"}
   PreKinds = {"0", "1", "sz"}
   DtSet = {0, 200}
-  Acts = {"step", "done", "size", "pre", "pause", "resize"}
+  Acts = {"step", "done", "size", "pre", "pause", "resize", "name"}
   MaxCalls = 3
 INVARIANTS TypeOK Fits PctRange PctMonotone BarCellsInRange NameOnlyShortened NameImpliesBar
 CHECK_DEADLOCK FALSE
